@@ -7,7 +7,6 @@ operations on OTHER objects and engine restarts on the same database file, and t
 import warnings
 
 from vlib import core
-from vlib import harness as H
 from vlib import c05_gen as G
 from vlib import c05_exec as X
 
